@@ -15,12 +15,22 @@ pub static C05: C05Check = C05Check;
 
 pub const DECOY: &str = "1 + 2 ?> { 3 } |> 4 && $";
 
+/// programs built first, so that the program under test starts at non-zero table indexes; they differ in how the
+/// instruction stream they leave behind ends (a jump, a bare end of expression, the empty program's end of expression)
+/// and in what they intern (the identifiers and constants the corpora use)
+pub const DECOYS: &[&str] = &[DECOY, "5", "", "a b f g k u v w x y zz 5 1 2 3 10 \"a\" 'a' :a"];
+
+pub fn build_decoy<D: GD>(data: &mut D, decoy: &str) -> Result<(), String> {
+    let toks = lex_g(decoy).map_err(|p| p.msg)?.map_err(|e| e)?;
+    let dp = parse_g(&toks).map_err(|p| p.msg)?.map_err(|e| e)?;
+    build_g(&dp, data).map_err(|p| format!("panic {}", p.loc))?.map_err(|e| e)?;
+    Ok(())
+}
+
 /// build `parsed` into `data` (optionally after a decoy program) and return what the build added
 pub fn build_with_extent<D: GD>(data: &mut D, parsed: &ParseResult, with_decoy: bool) -> Result<(Extent, Vec<Option<usize>>), String> {
     if with_decoy {
-        let toks = lex_g(DECOY).map_err(|p| p.msg)?.map_err(|e| e)?;
-        let dp = parse_g(&toks).map_err(|p| p.msg)?.map_err(|e| e)?;
-        build_g(&dp, data).map_err(|p| format!("panic {}", p.loc))?.map_err(|e| e)?;
+        build_decoy(data, DECOY)?;
     }
     let (i0, j0, d0) = snapshot_lens(data);
     let b = match build_g(parsed, data) {
@@ -56,20 +66,39 @@ pub fn judge(input: &str, ctx: &mut CaseCtx) {
     let node_count = parsed.get_nodes().len();
     let empty_group = has_empty_group(&tokens);
     let mut any = false;
+    // state of the data object the program is built into: 0 fresh, 1 after the main decoy, 2.. after another decoy,
+    // last: (BasicGarnishData) after the identifier decoy was built and the store compacted without retaining it.
+    // Short inputs see every state; longer ones the fresh one, the main decoy and one more chosen by their hash.
+    let compacted = DECOYS.len() + 1;
+    let states: Vec<usize> = if input.len() < 8 { (0..=compacted).collect() } else { vec![0, 1, 2 + (fnv(input.as_bytes()) % (DECOYS.len() as u64)) as usize] };
     for imp in Impl::BOTH {
-        for with_decoy in [false, true] {
+        for state in states.iter().copied() {
+            if state == compacted && imp == Impl::Simple {
+                continue;
+            }
+            let with_decoy = state != 0;
             ctx.sub_evals += 1;
             let (res, rendered, faults) = match imp {
                 Impl::Simple => {
                     let mut d = new_simple();
-                    match build_with_extent(&mut d, &parsed, with_decoy) {
+                    if state >= 1 && build_decoy(&mut d, DECOYS[state - 1]).is_err() {
+                        continue;
+                    }
+                    match build_with_extent(&mut d, &parsed, false) {
                         Ok((ext, meta)) => (Some(ext), render_stream(&d, &ext), streamcheck(&d, &ext, &meta, node_count)),
                         Err(_) => (None, String::new(), vec![]),
                     }
                 }
                 Impl::Basic => {
                     let mut d = new_basic();
-                    match build_with_extent(&mut d, &parsed, with_decoy) {
+                    if state == compacted {
+                        if build_decoy(&mut d, DECOYS[DECOYS.len() - 1]).is_err() || !matches!(guard("store", || d.optimize(&[])), Ok(Ok(_))) {
+                            continue;
+                        }
+                    } else if state >= 1 && build_decoy(&mut d, DECOYS[state - 1]).is_err() {
+                        continue;
+                    }
+                    match build_with_extent(&mut d, &parsed, false) {
                         Ok((ext, meta)) => (Some(ext), render_stream(&d, &ext), streamcheck(&d, &ext, &meta, node_count)),
                         Err(_) => (None, String::new(), vec![]),
                     }
@@ -82,7 +111,7 @@ pub fn judge(input: &str, ctx: &mut CaseCtx) {
                 }
                 for f in faults {
                     let sig = if empty_group { format!("{}[input-has-empty-group]", f.sig) } else { f.sig };
-                    ctx.fail(sig, format!("{:?} built into {}{}: {} — stream {}", input, imp.name(), if with_decoy { " after a decoy program" } else { "" }, f.detail, rendered));
+                    ctx.fail(sig, format!("{:?} built into {}{}: {} — stream {}", input, imp.name(), if state == compacted { " after an earlier program was built and the store compacted without retaining it".to_string() } else if with_decoy { format!(" after the decoy program {:?}", DECOYS[state - 1]) } else { String::new() }, f.detail, rendered));
                 }
             }
         }
@@ -102,8 +131,9 @@ impl Check for C05Check {
         "C05"
     }
     fn rule(&self) -> String {
-        "Same corpus as C04 (every sequence of up to L token classes x 3 separators, level-representative operator triples, token soups, random deeper expressions). Every input that parse and build accept is built four times: into SimpleGarnishData and BasicGarnishData, \
-         each fresh and after a decoy program (so all table indexes of the program under test are > 0 and an unpatched 0 placeholder or an absolute/relative mix-up leaves its own range). \
+        "Same corpus as C04 (every sequence of up to L token classes x 3 separators, level-representative operator triples, token soups, random deeper expressions). Every input that parse and build accept is built into SimpleGarnishData and BasicGarnishData, \
+         each fresh and after a decoy program (so all table indexes of the program under test are > 0 and an unpatched 0 placeholder or an absolute/relative mix-up leaves its own range); the decoys differ in how the stream they leave behind ends (a jump, a bare end of expression, the empty program) and in what they intern (the corpus's identifiers and constants), \
+         and BasicGarnishData is also used after the identifier decoy was built and the store compacted with nothing retained; inputs shorter than 8 bytes see all six states, longer ones three (fresh, main decoy, one chosen by hash). \
          Oracle (through GarnishData getters only): Put/Resolve operands name existing values (Resolve: a Symbol), jump operands and Expression values name jump entries created by this build, every entry created by this build points inside this build's instructions, \
          the last instruction and the instruction before every body entry (root, Expression bodies, conditional arms, logical right operands) is EndExpression/JumpTo, one metadata record per emitted instruction naming an existing parse node. \
          Non-trivial = program with >= 2 jump-table entries; distinct = distinct inputs."
